@@ -539,6 +539,42 @@ def prove_disconnect_relies(src_root, ex: Explorer):
             ob.name = 'C16.stop.closes-accepted.' + ob.name[len('C10.accepted.'):]
 
 
+def prove_stats_and_ping(src_root, ex: Explorer):
+    """(a) what login tells the server about the shares (SharedFoldersFiles, C16.login.told): get_stats counts the folders PER shared
+    directory (two shared directories that both have a sub folder 'cd1' share four folders, not two) and every file once.
+    (b) the server ping task lives with the server CONNECTION (started at CONNECTED, cancelled at CLOSING), not with the session: a loss
+    between connect and login would otherwise leave a ping task that no later event - and no stop() - cancels."""
+    def stats(ctx: Ctx):
+        it = mk(src_root, ctx)
+
+        def d(*subdirs):
+            return Stub('shared directory', items=[Stub('item', subdir=sd) for sd in subdirs])
+        sm = new(it, 'shares.manager', 'SharesManager', _shared_directories=[d('', 'cd1', 'cd1'), d('', 'cd1')])
+        r = it.call(it.getattr(sm, 'get_stats'), [], {})
+        ctx.prove('C16.login.share-counts', tuple(unbox(x) for x in r) == (4, 5), f'two shared directories with folders {{"", cd1}} each and 3 + 2 files: get_stats() == {tuple(unbox(x) for x in r)}')
+    ex.run(stats, 'share-stats')
+
+    def ping(ctx: Ctx):
+        it = mk(src_root, ctx)
+        registered = []
+        bus = Stub('bus', register=Recorder('register', fn=lambda it2, a, k: registered.append((a[0], a[1]))))
+        pt = BT('ping')
+        sm = new(it, 'server', 'ServerManager', _event_bus=bus, _ping_task=pt, _network=Stub('network'), _settings=Stub('settings'))
+        it.call(it.getattr(sm, 'register_listeners'), [], {})
+        handlers = [h for c, h in registered if getattr(c, 'name', None) == 'ConnectionStateChangedEvent']
+        if len(handlers) != 1:
+            ctx.fail('C16.ping.follows-the-connection', f'{len(handlers)} listeners for ConnectionStateChangedEvent registered by the server manager '
+                     f'({[getattr(c, "name", c) for c, _ in registered]}): the ping task is not tied to the state of the server connection')
+            return
+        sc = Obj(cls(it, CONN, 'ServerConnection'))
+        st = ['CONNECTED', 'CLOSING'][ctx.choose(2, 'state')]
+        ev = Stub('event', connection=sc, state=enum(it, CONN, 'ConnectionState', st), close_reason=enum(it, CONN, 'CloseReason', 'READ_ERROR'))
+        run(it, handlers[0], ev)
+        ctx.prove(f'C16.ping.follows-the-connection[{st}]', (pt.started, pt.cancelled) == ((1, 0) if st == 'CONNECTED' else (0, 1)),
+                  f'server connection {st}: ping task started {pt.started}x, cancelled {pt.cancelled}x')
+    ex.run(ping, 'ping')
+
+
 def prove_tree_relies(src_root, ex: Explorer):
     """What a (re-)login tells the server about the place in the distributed tree is computed from DistributedNetwork.parent at that
     moment (C13.told._on_session_initialized).  It is the truth only if a parent that was lost - also while there was NO session - is
@@ -553,7 +589,7 @@ def prove_tree_relies(src_root, ex: Explorer):
 
 
 def items(src_root, tier):
-    return [('tree-relies', None), ('disconnect-relies', None), ('login', None), ('ports', None), ('user', None), ('room', None), ('interest', None), ('shares', None), ('destroy', None),
+    return [('stats-ping', None), ('tree-relies', None), ('disconnect-relies', None), ('login', None), ('ports', None), ('user', None), ('room', None), ('interest', None), ('shares', None), ('destroy', None),
             ('watchdog', None), ('stop', None), ('tasks', None)]
 
 
@@ -567,7 +603,7 @@ def run_item(src_root, item, tier):
         else:
             {'login': prove_login, 'ports': prove_network_ports, 'user': prove_user_session, 'room': prove_room_session,
              'interest': prove_interest_session, 'shares': prove_shares_session, 'destroy': prove_destroy, 'watchdog': prove_watchdog,
-             'tasks': prove_task_bookkeeping, 'disconnect-relies': prove_disconnect_relies, 'tree-relies': prove_tree_relies}[kind](src_root, ex)
+             'tasks': prove_task_bookkeeping, 'disconnect-relies': prove_disconnect_relies, 'tree-relies': prove_tree_relies, 'stats-ping': prove_stats_and_ping}[kind](src_root, ex)
     except Unsupported as e:
         res.errors.append(f'{kind}: unsupported: {e}')
     collect(res, ex)
